@@ -159,6 +159,10 @@ let () =
                 @ (if nonthis_env = "1" then [{ bk_envvar_forced = true; bk_is_thissystem = Z0 }] else []) in
        history := !history @ [{ lc_backends = bk; lc_flag = (flag = "1"); lc_env = (if env = "-" then None else Some (z_of_int (int_of_c env))) }]
      | "load" :: "rc=-1" :: _ -> print_endline l
+     (* derivations: dup / adopt keep the source's hook selection (Bind.derive); an XML export reloaded into a
+        fresh handle is a new load history of its own *)
+     | ["dup"] | ["adopt"] -> ()
+     | "xmlreload" :: _ -> (match Stdlib.List.rev !history with last :: _ -> history := [last] | [] -> ())
      | "I" :: rest ->
        (* the sets come from the C side; whether the topology is this system is the MODEL's answer for the
           handle's whole load history (when the script declares it) *)
